@@ -124,6 +124,21 @@ Proof.
   repeat constructor; cbn; apply Forall_scalarb; vm_compute; reflexivity.
 Qed.
 
+(* And one more level: a LIST of such objects -- the script / stylesheet / meta fields as
+   HTMLDependency.as_dict hands them to json.dumps -- (enc_obj_list, run against json.dumps of
+   lists of dicts; dec_obj_list against raw_decode), for any number of objects of any number of
+   members. *)
+Theorem C13_json_object_list_in_context :
+  forall (l : list (list (str * str))) (r : str), Forall (Forall scalar_pair) l ->
+  exists r1, ins r r1 /\ dec_obj_list (neutralise (enc_obj_list l ++ r)) = Some (l, r1).
+Proof. apply obj_list_in_context_with. vm_compute. reflexivity. Qed.
+Print Assumptions C13_json_object_list_in_context.
+
+Example C13_object_list_example :
+  dec_obj_list (neutralise (enc_obj_list [[([115], [60; 47; 115; 62])]; []; [([97], [98]); ([60; 47], [])]] ++ [125]))
+  = Some ([[([115], [60; 47; 115; 62])]; []; [([97], [98]); ([60; 47], [])]], [125]).
+Proof. vm_compute. reflexivity. Qed.
+
 (* ------------------------------------------------------------------------------------ *)
 (* T3  extraction                                                                          *)
 (* ------------------------------------------------------------------------------------ *)
